@@ -61,6 +61,9 @@ H={
  'C18-r10b':"NOT CAUGHT: FuncAction.Exec gathers the permanent bindings from the caller's map after the action returned; shows only when the owner of the state changes its map while the call is in flight",
  'C20-r10a':"missed at first; caught since uncompiled tools specifications sometimes carry a mistyped branching type",
  'C08-r10a':"caught at once; re-made on top of the repair D58 afterwards and caught again",
+ # round 11 (an interaction of two features)
+ 'C17-r11a':"missed at first; caught since the sio timer scenarios have rejected makeTimer requests (unparsable delay) under the id of a pending timer, in the main goroutine, inside handlers and before restarts: the snapshot after the request is compared with the model's pending set",
+ 'C02-r11a':"reported at first through the model comparison only (no-failing-input-found: the C02 oracle used the plain embedding relation); caught with a failing input since the oracle also applies C02_match_complete_optional (c02_pre_opt / embeds_opt) and the generator plants assignments around an optional variable beside structured elements",
 }
 for d in sys.argv[1:]:
     n=os.path.basename(d.rstrip('/'))
@@ -68,7 +71,7 @@ for d in sys.argv[1:]:
     if not os.path.exists(r): print('no result',n); continue
     res=json.load(open(r))
     rt='/tmp/seed5/retest_%s.json'%n
-    if (not res.get('detected_by') or n in ('C13-r9a','C13-r9b')) and os.path.exists(rt):
+    if (not res.get('detected_by') or n in ('C13-r9a','C13-r9b','C02-r11a')) and os.path.exists(rt):
         try:
             r2=json.load(open(rt))
             if r2.get('detected_by'):
